@@ -9,6 +9,7 @@ import sympy as sp
 
 from .. import terms as TM
 from ..absint import Interp, Unsupported
+from .common import is_callable_value
 from ..core import AnalysisError, Report, Repo
 from ..schemas import O, P, dim, hyper
 from ..values import BOTTOM, ClassV, FuncV, Gamma, Obj, Shape, T, TV, fmt
@@ -69,6 +70,34 @@ def oracle_factor(rule: str, tag: str, shape: Shape, depth: Any) -> Any:
     raise KeyError(rule)
 
 
+RULE_LABEL = {"adam": "lr_scale_func_adam", "sgd-none": "lr_scale_func_sgd(None)", "sgd-output": "lr_scale_func_sgd('to_output_scale')"}
+
+
+def same_rule(it: Interp, f: Any, rname: str, tags: List[str]) -> Optional[bool]:
+    """Does the callable f give the factors of the named rule for every tag, rank 1..3 and depth?"""
+    if not is_callable_value(it, f):
+        return False
+    verdict: Optional[bool] = True
+    for tag in tags:
+        for ndim in (1, 2, 3):
+            for depth in (None, Dp):
+                p = mkparam(tag, ndim, depth)
+                exp = oracle_factor(rname, tag, p.attrs["shape"], depth)
+                if exp is None:
+                    continue
+                try:
+                    got = it.call_function(f, [p], {})
+                except Unsupported:
+                    verdict = None
+                    continue
+                r = TM.expr_equal(got, exp) if isinstance(got, (int, sp.Basic)) else (False if got is BOTTOM else None)
+                if r is False:
+                    return False
+                if r is None:
+                    verdict = None
+    return verdict
+
+
 def check(report: Report, repo: Repo) -> None:
     report.rule_text = (
         "R1: abstractly evaluate lr_scale_func_adam and lr_scale_func_sgd(rc) for every tag of MupType x ndim 1..4 x"
@@ -88,13 +117,12 @@ def check(report: Report, repo: Repo) -> None:
     rules: Dict[str, Any] = {"adam": adam}
     try:
         r_none = it.call_function(sgd_f, [None], {})
-        same = isinstance(r_none, FuncV) and r_none.node is adam.node
-        report.add("R1-factor", f"{OP}::lr_scale_func_sgd[None]", same, "SGD with unconstrained readout uses the Adam rule itself", fmt(r_none), "lr_scale_func_adam")
-        rules["sgd-none"] = r_none if isinstance(r_none, FuncV) else None
+        report.add("R1-factor", f"{OP}::lr_scale_func_sgd[None]", is_callable_value(it, r_none), "SGD with unconstrained readout returns a scaling rule (its factors are compared with the Adam table below)", fmt(r_none), "a callable rule", nontrivial=False)
+        rules["sgd-none"] = r_none if is_callable_value(it, r_none) else None
         r_out = it.call_function(sgd_f, ["to_output_scale"], {})
-        rules["sgd-output"] = r_out if isinstance(r_out, FuncV) else None
-        if not isinstance(r_out, FuncV):
-            report.add("R1-factor", f"{OP}::lr_scale_func_sgd[to_output_scale]", False, "must return a scaling function", fmt(r_out), "function")
+        rules["sgd-output"] = r_out if is_callable_value(it, r_out) else None
+        if not is_callable_value(it, r_out):
+            report.add("R1-factor", f"{OP}::lr_scale_func_sgd[to_output_scale]", False, "must return a scaling rule (a callable)", fmt(r_out), "callable")
     except Unsupported as e:
         report.add("R1-factor", f"{OP}::lr_scale_func_sgd", None, f"outside fragment: {e}")
     n_cases = 0
@@ -106,7 +134,7 @@ def check(report: Report, repo: Repo) -> None:
                 for depth in (None, Dp):
                     p = mkparam(tag, ndim, depth)
                     it.events = []
-                    cons = f"{OP}::{f.qualname}[{tag},ndim={ndim}]"
+                    cons = f"{OP}::{RULE_LABEL[rname]}[{tag},ndim={ndim}]"
                     try:
                         got = it.call_function(f, [p], {})
                     except Unsupported as e:
@@ -217,12 +245,12 @@ def check(report: Report, repo: Repo) -> None:
                 continue
             b = calls[0]["bound"]
             fobj = b.get("lr_scale_func")
+            # which rule reaches scaled_parameters is decided extensionally: its factor for every tag / rank / depth
             if cname == "SGD":
-                want = it.call_function(sgd_f, [rc], {})
-                okf = isinstance(fobj, FuncV) and isinstance(want, FuncV) and fobj.node is want.node
+                okf = same_rule(it2, fobj, "sgd-output" if rc == "to_output_scale" else "sgd-none", tags)
                 wn = f"lr_scale_func_sgd({rc!r})"
             else:
-                okf = isinstance(fobj, FuncV) and fobj.node is adam.node
+                okf = same_rule(it2, fobj, "adam", tags)
                 wn = "lr_scale_func_adam"
             report.add("R4-wiring", f"{cons}::lr_scale_func", okf, f"{cname}(readout_constraint={rc!r}) must use {wn}", fmt(fobj), wn)
             okp = TM.term_equal(TM.term_of(b.get("params")), T("param", ("params",))) is True
